@@ -182,7 +182,7 @@ class C05(Prop):
             near, a, b, sa, sb, cands = sample(rng)
             sa = [s for s in sa if _valid_clause(s)]
             sb = [s for s in sb if _valid_clause(s)]
-            how = "list" if (rng.random() < 0.25 or any("," in s for s in sa)) else "str"
+            how = "list" if (rng.random() < 0.25 or any("," in s for s in sa)) else rng.choice(["str", "str", "and"])
             # a second clause list with the same members up to Specifier equality: permuted, duplicated, respelled variants
             sa2 = list(sa)
             for c in a:
@@ -221,6 +221,12 @@ class C05(Prop):
                 return SpecifierSet([Specifier(c) for c in clauses], prereleases=ov)
             if any("," in c for c in clauses):
                 raise G.Domain("a clause containing a comma cannot be given inside a string")
+            if how == "and":
+                # the same set, obtained by intersecting one-clause sets (alternately `set & str` and `set & set`)
+                acc = SpecifierSet(clauses[0] if clauses else "", prereleases=ov)
+                for i, c in enumerate(clauses[1:]):
+                    acc = acc & (c if i % 2 == 0 else SpecifierSet(c))
+                return acc if clauses[1:] else acc & SpecifierSet("")
             return SpecifierSet(",".join(clauses), prereleases=ov)
 
         if law == "conjunction":
